@@ -2,6 +2,7 @@
 use crate::engine::*;
 use crate::ucd::{self, db, Dpv, RULE_NAMES};
 use precis_core::{FreeformClass, IdentifierClass, StringClass};
+use proptest::prelude::*;
 use serde_json::{json, Value};
 use unicode_normalization::UnicodeNormalization;
 
@@ -143,6 +144,76 @@ pub fn run(run: &Run) {
         }
         Ok(())
     });
+    // poison-then-sweep: a few hundred out-of-range values (biased to the top of the u32 range), then EVERY in-range code point
+    // again on the same thread (a memo whose tag loses bits for large arguments answers wrongly for an in-range value afterwards)
+    let rounds = run.pick(8usize, 250usize);
+    run.par("poison_then_sweep", false, |tid, _n, l| {
+        let st = proptest::collection::vec(prop_oneof![3 => 0xf000_0000u32..=u32::MAX, 2 => 0x8000_0000u32..=u32::MAX, 1 => 0x110000u32..=u32::MAX], 300);
+        let batches = run.sample_strategy("poison_then_sweep", tid, &st, rounds);
+        let idc = IdentifierClass::default();
+        let ffc = FreeformClass::default();
+        let d = db();
+        for batch in batches {
+            if run.stopped() {
+                return;
+            }
+            for v in &batch {
+                l.cases += 1;
+                if let Err(e) = check_cp(*v, l) {
+                    run.violate(e);
+                    return;
+                }
+            }
+            // light sweep: only the classification, against the reference arrays
+            for cp in 0..0x110000u32 {
+                let (i, f) = (Dpv::of(idc.get_value_from_codepoint(cp)), Dpv::of(ffc.get_value_from_codepoint(cp)));
+                if i != d.id(cp) || f != d.ff(cp) {
+                    // confirm through the full check (skew guard etc.) and report with the history that led here
+                    if let Err(mut e) = check_cp(cp, l) {
+                        e.case = json!({"op": "classify_after_history", "cp_value": cp, "history": batch, "note": "the 300 out-of-range values were classified on the same thread just before"});
+                        run.violate(e);
+                        return;
+                    }
+                }
+            }
+            l.evals_n(2 * 0x110000);
+        }
+    });
+    // repeat-then-neighbour: the same code point 254..258 / 510..514 times, then a code point at +1, +0x40, +0x80, +0x100,
+    // +0x10000 whose value differs (hit counters that carry into a key field)
+    run.par("repeat_then_neighbour", true, |tid, n, l| {
+        let d = db();
+        let idc = IdentifierClass::default();
+        let ffc = FreeformClass::default();
+        let mut k = 0usize;
+        for cp in 0x80u32..0x30000 {
+            for delta in [1u32, 0x40, 0x80, 0x100, 0x10000] {
+                let nb = cp + delta;
+                if nb >= 0x110000 || d.id(cp) == d.id(nb) || (0xd800..0xe000).contains(&cp) || (0xd800..0xe000).contains(&nb) {
+                    continue;
+                }
+                k += 1;
+                if k % 61 != 0 || (k / 61) % n != tid {
+                    continue;
+                }
+                for reps in [254usize, 255, 256, 257, 258, 511, 512, 513] {
+                    for _ in 0..reps {
+                        std::hint::black_box(idc.get_value_from_codepoint(cp));
+                        std::hint::black_box(ffc.get_value_from_codepoint(cp));
+                    }
+                    l.cases += 1;
+                    l.evals_n(2 * reps as u64);
+                    for x in [nb, cp] {
+                        if let Err(mut e) = check_cp(x, l) {
+                            e.case = json!({"op": "classify_after_repeats", "cp_value": x, "repeated": cp, "times": reps});
+                            run.violate(e);
+                            return;
+                        }
+                    }
+                }
+            }
+        }
+    });
     // every in-range valid code point paired with its aliases at +2^21 .. +2^31 (same thread, alternating)
     run.par("aliases_of_valid_code_points", true, |tid, n, l| {
         let d = db();
@@ -167,5 +238,18 @@ pub fn run(run: &Run) {
 
 pub fn replay(_run: &Run, case: &Value) -> Check {
     let cp = case.get("cp_value").and_then(|v| v.as_u64()).expect("cp_value") as u32;
+    // cases that depend on earlier calls on the same thread carry their history
+    if let Some(h) = case.get("history").and_then(|h| h.as_array()) {
+        let mut l = Local::default();
+        for v in h {
+            check_cp(v.as_u64().unwrap() as u32, &mut l)?;
+        }
+    }
+    if let (Some(r), Some(t)) = (case.get("repeated").and_then(|v| v.as_u64()), case.get("times").and_then(|v| v.as_u64())) {
+        for _ in 0..t {
+            std::hint::black_box(IdentifierClass::default().get_value_from_codepoint(r as u32));
+            std::hint::black_box(FreeformClass::default().get_value_from_codepoint(r as u32));
+        }
+    }
     check_cp(cp, &mut Local::default())
 }
